@@ -54,3 +54,71 @@ Theorem C20_writer_judge_sound : forall rec fmt ty m n M bytes rc2 res rest,
   parse fmt ty bytes = TOk m n M /\ rc2 = 0 /\ res = Some (m, n, M).
 Proof. exact judge_textwrite_sound. Qed.
 Print Assumptions C20_writer_judge_sound.
+
+(* ---------- matrix and submatrix utilities (transpose, permute, slice, support, conversions, equality / transpose
+   tests, 1-sum, submatrix text round trip, sub-submatrices): proofs in MatProofs.v ---------- *)
+Require Import Cmr.MatModel Cmr.MatProofs.
+
+(* algebraic laws of the dense models the library results are compared with *)
+Theorem C20_transpose_involutive : forall m n M, wf_mat m n M = true -> transpose n m (transpose m n M) = M.
+Proof. exact transpose_involutive. Qed.
+Print Assumptions C20_transpose_involutive.
+
+Theorem C20_slice_of_slice : forall M rs cs rs' cs',
+  all_lt (length rs) rs' = true -> all_lt (length cs) cs' = true ->
+  submat (submat M rs cs) rs' cs' = submat M (map (fun i => nth i rs 0%nat) rs') (map (fun j => nth j cs 0%nat) cs').
+Proof. exact submat_submat. Qed.
+Print Assumptions C20_slice_of_slice.
+
+Theorem C20_transpose_of_slice : forall m n M rs cs, all_lt m rs = true -> all_lt n cs = true ->
+  transpose (length rs) (length cs) (submat M rs cs) = submat (transpose m n M) cs rs.
+Proof. exact transpose_submat. Qed.
+Print Assumptions C20_transpose_of_slice.
+
+Theorem C20_support_laws : forall m n M,
+  support (support M) = support M /\ support (signed_support M) = support M /\
+  support (transpose m n M) = transpose m n (support M).
+Proof.
+  intros m n M. split; [exact (support_idempotent M)|]. split; [exact (support_signed M) | exact (support_transpose m n M)].
+Qed.
+Print Assumptions C20_support_laws.
+
+Theorem C20_subsubmatrix_inverse : forall base input out,
+  (sub_slice base input = Some out -> sub_unslice base out = Some input) /\
+  (NoDup base -> sub_unslice base input = Some out -> sub_slice base out = Some input).
+Proof.
+  intros base input out. split; [exact (sub_slice_unslice base input out) | exact (sub_unslice_slice base input out)].
+Qed.
+Print Assumptions C20_subsubmatrix_inverse.
+
+(* accepted records: the returned matrix is a consistent sparse matrix (it decodes under csr_wf) and equals the model *)
+Theorem C20_judge_unary_sound : forall rec op ty m n M rest rc r rest',
+  matutil_head rec = Some ((op, ty, (m, n, M)), rest) -> matutil_result rest = Some ((rc, r), rest') ->
+  judge_matutil rec = 0%Z -> op = 1%Z \/ op = 4%Z \/ op = 5%Z \/ op = 7%Z ->
+  if (op =? 7)%Z && (ty =? 1)%Z && negb (mat_forall in_char M) then rc <> 0%Z
+  else rc = 0%Z /\ r = RMat (unary_ty op ty) (unary_model op m n M) /\ from_csr (unary_model op m n M).
+Proof. exact judge_matutil_unary. Qed.
+Print Assumptions C20_judge_unary_sound.
+
+Theorem C20_judge_slice_sound : forall rec op ty m n M rest rs cs rest2 rc r rest3,
+  matutil_head rec = Some ((op, ty, (m, n, M)), rest) -> submat_args op m n rest = Some ((rs, cs), rest2) ->
+  matutil_result rest2 = Some ((rc, r), rest3) -> judge_matutil rec = 0%Z -> op = 2%Z \/ op = 3%Z ->
+  if all_lt m rs && all_lt n cs
+  then rc = 0%Z /\ r = RMat ty (length rs, length cs, submat M rs cs) /\ from_csr (length rs, length cs, submat M rs cs)
+  else rc <> 0%Z.
+Proof. exact judge_matutil_submat. Qed.
+Print Assumptions C20_judge_slice_sound.
+
+Theorem C20_judge_onesum_sound : forall rec ty m n M rest m2 n2 M2 rc r rest',
+  matutil_head rec = Some ((10%Z, ty, (m, n, M)), rest) -> binary_args rest = Some (((m2, n2, M2), rc, r), rest') ->
+  judge_matutil rec = 0%Z ->
+  rc = 0%Z /\ r = RMat 0%Z ((m + m2)%nat, (n + n2)%nat, block_diag2 m n M m2 n2 M2) /\
+  from_csr ((m + m2)%nat, (n + n2)%nat, block_diag2 m n M m2 n2 M2).
+Proof. exact judge_matutil_onesum. Qed.
+Print Assumptions C20_judge_onesum_sound.
+
+Theorem C20_judge_submatrix_roundtrip_sound : forall rec ty m n M rest rs cs rc r rest',
+  matutil_head rec = Some ((11%Z, ty, (m, n, M)), rest) -> subio_args rest = Some ((rs, cs, rc, r), rest') ->
+  judge_matutil rec = 0%Z -> all_lt m rs = true -> all_lt n cs = true -> rc = 0%Z /\ r = RSub m n rs cs.
+Proof. exact judge_matutil_subio. Qed.
+Print Assumptions C20_judge_submatrix_roundtrip_sound.
